@@ -146,6 +146,13 @@ def catalogue_cases(ids: IdGen, tier: str, seed: int = 1):
                     without = ("range",) if im == "table_inline" else ()
                     cases.append(Case(ids.next(), d, legalize(cfg_all(tm, without=without), d), "plain",
                                       {"part": "catalogue"}))
+                # sparse feature sets: no `names`, no table iterator, so nothing else pins the tables' layout
+                for sparse in ({"as_str": {"mode": "table"}, "from_str": {"mode": "table"}, "Display": {}, "IntoStr": {}},
+                               {"Display": {}, "FromStr": {}, "Debug": {}},
+                               {"as_str": {}, "FromStr": {"mode": "table"}, "iter": {"mode": "next_and_back"}, "range": {}},
+                               {"from_str": {"mode": "table"}, "try_from": {}, "next": {}, "next_back": {}, "as_str": {"mode": "match"}}):
+                    cases.append(Case(ids.next(), d, legalize(Config({k: dict(v) for k, v in sparse.items()}), d), "plain",
+                                      {"part": "catalogue"}))
                 continue
             if tier != "quick" or (si + ri) % 2 == 0:
                 # the same declaration under a second, explicit mode tuple with range()
@@ -246,6 +253,13 @@ def c18_cases(ids: IdGen, tier: str):
         ([5], "none"),
         ([0, 2, 4, 6, 8], "dups"),
         ([-10, -5, -4, 3], "none"),
+        # gapless sets touching one repr's limit but not another's; > 128 variants; i64::MAX not declared last
+        ([125, 126, 127], "none"),
+        ([253, 254, 255], "first"),
+        ([-128, -127, -126], "none"),
+        (list(range(-100, 101)), "all"),
+        ([-1, 0, (1 << 63) - 1], "none"),
+        ([-(1 << 63), 5, 6], "first"),
     ]
     if tier != "quick":
         sets += [
@@ -484,9 +498,13 @@ def cfg_shapes():
         ("holes_wide", "u64", [0, 1, 2, (1 << 32) - 1, 1 << 32, (1 << 32) + 1, (1 << 63) - 2, (1 << 63) - 1], "desc", "swap"),
     ]
     out = []
-    for name, r, vs, order, renames in specs:
+    # (enum names: single letters are what generic parameters of generated methods would be called)
+    enum_names = ["E", "B", "F", "T", "Kind", "I", "R", "E", "S"]
+    for k, (name, r, vs, order, renames) in enumerate(specs):
         seq = shapes.order_values(sorted(vs), order, rng)
-        out.append(shapes.build_decl(r, seq, "cfg_" + name, "dec", renames, rng))
+        d = shapes.build_decl(r, seq, "cfg_" + name, "dec", renames, rng)
+        d.name = enum_names[k % len(enum_names)]
+        out.append(d)
     return out
 
 
